@@ -117,6 +117,11 @@ def run_config(rep, fx, cfg):
             rep.check(ok_m, 'R15.1', key + '/multiplicity', 'written %s, read %s' % (emult, c['mult']),
                       '%s: %s is written with multiplicity "%s" but read as "%s" (mandatory/optional/list mismatch)' % (short, pid, emult, c['mult']), e['where'])
             for xi, x in enumerate(sp[pid]):
+                # a parameter may be left out for exactly the value the reader re-creates when it is absent (`if v != c { emit }` with `None => c` on the other side)
+                if x['value_conds'] and len(x['value_conds']) == len(x.get('value_cond_terms') or []) and \
+                        all(_recreated(fx, dp[pid], pid, cond, lab) for cond, lab in x['value_cond_terms']):
+                    x = dict(x)
+                    x['value_conds'] = []
                 rep.check(not x['value_conds'], 'R15.1', key + ('/presence-only#%d' % (xi + 1) if x['value_conds'] and len(sp[pid]) > 1 else '/presence-only'),
                           'emission depends only on presence / variant of the field',
                           '%s: whether %s is written depends on a VALUE (%s): for that value the parameter is missing on the wire and the field does not survive '
@@ -520,3 +525,42 @@ def rule_15_9(rep, fx):
     ok2 = all(t2.get(v) == [k] for k, v in want.items()) and t2.get('Other', []) == []
     rep.check(ok2, 'R15.9', 'repr::Locator::from(Locator)/kind-table', 'variant -> kind constant: %s' % t2,
               'From<Locator> for repr::Locator does not give each variant its own kind constant (table %s, expected %s and Other -> its own kind field)' % (t2, exp2), to.where())
+
+
+def _recreated(fx, consumers, pid, cond, lab):
+    """`cond` (with outcome `lab` leading to the emission) is `field != c`, and a deserializer that reads `pid` builds the same-named field from the constant c on a path
+    that took the None edge of its lookup of `pid`."""
+    from rdv.core import Origins, Pos, switch_edges, term_has, term_leaves
+    if cond[0] != 'bin' or cond[1] not in ('Ne', 'Eq') or (cond[1] == 'Ne') != bool(lab):
+        return False
+    k = [x for x in (cond[2], cond[3]) if x[0] == 'const' and x[1] == 'int']
+    v = [x for x in (cond[2], cond[3]) if x[0] != 'const']
+    if len(k) != 1 or len(v) != 1:
+        return False
+    c = k[0][2]
+    fields = [y[1] for y in term_leaves(v[0]) if y[0] == 'field' and not str(y[1]).isdigit()]
+    f = None
+    t = v[0]
+    while isinstance(t, tuple) and t and t[0] in ('field', 'variant', 'deref', 'ref', 'copy'):
+        if t[0] == 'field' and not str(t[1]).isdigit():
+            f = t[1]
+            break
+        t = t[2] if t[0] in ('field', 'variant') else t[1]
+    if f is None:
+        return False
+    for cons in consumers:
+        b = fx.find(cons['fn']) if cons.get('fn') else None
+        if b is None:
+            continue
+        og = Origins(b, summaries=False)
+        P = Pos(b)
+        none_e = [(s_, t_) for s_, t_, cnd, lb in switch_edges(b, fx, og) if lb == 'None' and cnd[0] == 'discr' and pid in str(cnd[1])]
+        if not none_e:
+            continue
+        for bb, si, st in b.statements():
+            if st['s'] == 'assign' and st['rv']['r'] == 'agg' and f in (st['rv'].get('fields') or []):
+                op = st['rv']['ops'][st['rv']['fields'].index(f)]
+                if op.get('o') == 'const' and op['k'].get('c') == 'int' and op['k'].get('v') == c and \
+                        P.every_path_passes(None, (bb, si), via_edges=none_e, from_entry=True):
+                    return True
+    return False
